@@ -181,6 +181,12 @@ type c09ctx struct {
 	// functions in which a value-carrying operator is assumed (pairing): fn -> why
 	needsValue map[*ssa.Function][]string
 	validatedCmpCalls int
+	// interprocedural reflect-kind facts: parameter -> join over all call sites of the argument's kinds
+	collect   bool
+	paramIn   map[*ssa.Parameter]KindSet
+	paramSeen map[*ssa.Parameter]int
+	paramK    map[*ssa.Parameter]KindSet
+	postNonNil map[*ssa.Function]int // 0 unknown, 1 yes, 2 no
 }
 
 func (c *c09ctx) site(ins ssa.Instruction, kind, name string) *siteRes {
@@ -194,6 +200,9 @@ func (c *c09ctx) site(ins ssa.Instruction, kind, name string) *siteRes {
 }
 
 func (c *c09ctx) record(ins ssa.Instruction, kind, name string, ok bool, why string, st *pstate) {
+	if c.collect {
+		return
+	}
 	s := c.site(ins, kind, name)
 	s.reached++
 	if !ok {
@@ -214,10 +223,14 @@ func isPureReflectHelper(prog *Program, fn *ssa.Function) bool {
 			return false
 		}
 	}
-	if fn.Signature.Results().Len() != 1 || !ok(fn.Signature.Results().At(0).Type()) {
+	if fn.Signature.Results().Len() != 1 {
 		return false
 	}
-	return true
+	rt := fn.Signature.Results().At(0).Type()
+	if sl, isSlice := rt.Underlying().(*types.Slice); isSlice {
+		rt = sl.Elem()
+	}
+	return ok(rt)
 }
 
 // linear form of an integer sym: base key + constant offset.
@@ -467,6 +480,14 @@ func (c *c09ctx) analyseFunc(fn *ssa.Function) {
 			return
 		}
 		callee := ev.Callee
+		if callee != nil && prog.InModule(callee) && c.collect {
+			for i, p := range callee.Params {
+				if i < len(ev.Args) && (isReflectValue(p.Type()) || isReflectType(p.Type())) {
+					c.paramIn[p] |= c.ke.kinds(st, ev.Args[i])
+					c.paramSeen[p]++
+				}
+			}
+		}
 		if callee != nil && !prog.InModule(callee) && callee.Signature.Recv() != nil && len(ev.Args) > 0 {
 			if _, isPtr := callee.Signature.Recv().Type().Underlying().(*types.Pointer); isPtr {
 				// a method of a foreign pointer type: the receiver must not be nil (the dereference happens inside the dependency)
@@ -999,6 +1020,13 @@ func (c *c09ctx) nonNil(st *pstate, b *Sym) bool {
 		return true // MapRange returns a non-nil iterator
 	}
 	if b.K == sRes && b.Idx == 0 {
+		if fn, _ := calleeOfSym(b.A); fn != nil && c.prog.InModule(fn) && c.moduleNonNilWhenErrNil(fn) {
+			if eq, ok := evalEq(st, &Sym{K: sRes, A: b.A, Idx: 1}, nilSym()); ok && eq {
+				return true
+			}
+		}
+	}
+	if b.K == sRes && b.Idx == 0 {
 		if fn, _ := calleeOfSym(b.A); fn != nil && fn.Pkg != nil && nonNilWhenErrNil[fn.Pkg.Pkg.Path()+"."+fn.Name()] {
 			if eq, ok := evalEq(st, &Sym{K: sRes, A: b.A, Idx: 1}, nilSym()); ok && eq {
 				return true
@@ -1006,6 +1034,39 @@ func (c *c09ctx) nonNil(st *pstate, b *Sym) bool {
 		}
 	}
 	return false
+}
+
+// moduleNonNilWhenErrNil: every return of the module function fn is (proven non-nil, nil error) or (·, non-nil error).
+func (c *c09ctx) moduleNonNilWhenErrNil(fn *ssa.Function) bool {
+	if v := c.postNonNil[fn]; v != 0 {
+		return v == 1
+	}
+	c.postNonNil[fn] = 2 // recursion guard
+	if fn.Signature.Results().Len() != 2 || !isErrorType(fn.Signature.Results().At(1).Type()) || len(fn.Blocks) == 0 {
+		return false
+	}
+	ps := NewPathSim(c.prog)
+	ok := true
+	n := 0
+	for _, sm := range ps.Run(fn) {
+		if sm.Ret == nil || len(sm.Results) != 2 {
+			continue
+		}
+		n++
+		switch errClass(sm, sm.Results[1]) {
+		case "nonnil":
+		case "nil":
+			if !c.nonNil(sm.St, sm.Results[0]) {
+				ok = false
+			}
+		default:
+			ok = false
+		}
+	}
+	if ok && n > 0 {
+		c.postNonNil[fn] = 1
+	}
+	return ok && n > 0
 }
 
 func (c *c09ctx) nilDeref(f *ssa.Function, st *pstate, ins ssa.Instruction, b *Sym, v ssa.Value) {
@@ -1046,9 +1107,14 @@ func checkPanicSites(r *Run, prog *Program, a *Anchors, pfx string, roots map[*s
 			r.Fail("undecided", pfx+".kind-tables", "extract", prog.pos(a.EqTable.Pos()), p)
 		}
 	}
-	c := &c09ctx{r: r, prog: prog, a: a, kt: kt, pfx: pfx, sites: map[ssa.Instruction]*siteRes{}, cmpSet: map[*ssa.Function]bool{}, needsValue: map[*ssa.Function][]string{}}
+	c := &c09ctx{r: r, prog: prog, a: a, kt: kt, pfx: pfx, sites: map[ssa.Instruction]*siteRes{}, cmpSet: map[*ssa.Function]bool{}, needsValue: map[*ssa.Function][]string{},
+		paramIn: map[*ssa.Parameter]KindSet{}, paramSeen: map[*ssa.Parameter]int{}, paramK: map[*ssa.Parameter]KindSet{}, postNonNil: map[*ssa.Function]int{}}
 	c.ke = &kindEnv{prog: prog}
 	c.ke.litKinds = c.coerceKindsOf
+	c.ke.paramKinds = func(p *ssa.Parameter) (KindSet, bool) {
+		k, ok := c.paramK[p]
+		return k, ok
+	}
 	for _, f := range kt.eq {
 		if f != nil {
 			c.cmpSet[f] = true
@@ -1084,6 +1150,50 @@ func checkPanicSites(r *Run, prog *Program, a *Anchors, pfx string, roots map[*s
 		}
 	}
 	sort.Slice(fns, func(i, j int) bool { return fns[i].String() < fns[j].String() })
+	// two collecting rounds propagate the kinds of reflect-typed arguments into the parameters of unexported helpers
+	// whose every caller is a static call from an analysed function (otherwise the parameter stays ⊤)
+	hasReflectParam := false
+	for f := range roots {
+		for _, p := range f.Params {
+			if (isReflectValue(p.Type()) || isReflectType(p.Type())) && !c.cmpSet[f] {
+				isMatcher := false
+				for _, m := range a.Matchers {
+					if m == f {
+						isMatcher = true
+					}
+				}
+				if !isMatcher {
+					hasReflectParam = true
+				}
+			}
+		}
+	}
+	for round := 0; hasReflectParam && round < 2; round++ {
+		c.collect = true
+		c.paramIn = map[*ssa.Parameter]KindSet{}
+		c.paramSeen = map[*ssa.Parameter]int{}
+		for _, f := range fns {
+			c.analyseFunc(f)
+		}
+		c.collect = false
+		next := map[*ssa.Parameter]KindSet{}
+		for p, k := range c.paramIn {
+			fn := p.Parent()
+			// every caller must have been seen: all call-graph in-edges are static calls from analysed functions
+			okAll := fn.Object() == nil || !fn.Object().Exported()
+			if n := prog.CG.Nodes[fn]; n != nil && okAll {
+				for _, e := range n.In {
+					if e.Site == nil || e.Site.Common().StaticCallee() != fn || !roots[e.Caller.Func] {
+						okAll = false
+					}
+				}
+			}
+			if okAll {
+				next[p] = k
+			}
+		}
+		c.paramK = next
+	}
 	for _, f := range fns {
 		c.analyseFunc(f)
 	}
